@@ -29,7 +29,7 @@ contract(
         ('exact_statistic',
          'all(result[k] == window_stat(_func_traces[k], average, max_history) for k in _func_traces)'),
     ],
-    loops={'0': dict(index='i', invariants=[
+    loops={'iter:_func_traces.items()': dict(index='i', invariants=[
         ('size', 'len(out) == i'),
         ('prefix', 'all(key_at(out, j) == key_at(_func_traces, j) and '
                    'out[key_at(_func_traces, j)] == window_stat(_func_traces[key_at(_func_traces, j)], average, max_history) '
